@@ -393,3 +393,141 @@ theorem gmEval_spec (cacheOn : Bool) (raw norm : Nat → List F) (s : GMState F)
       rw [hmlen]; exact forall2_replicate t
 
 end C10
+
+/-! ## smoothing as a re-weighting: `Σ smooth(p) = Σ p_j · colSum j` -/
+
+open Pdf C10
+
+section
+variable {K : Type} [Field K] [LinearOrder K] [IsStrictOrderedRing K]
+
+theorem C10.sum_range_map (n : Nat) (f : Nat → K) :
+    ((List.range n).map f).sum = ∑ i ∈ Finset.range n, f i := by
+  induction n with
+  | zero => simp
+  | succ n ih => rw [List.range_succ, List.map_append, List.sum_append, ih, Finset.sum_range_succ]; simp
+
+/-- the kernel term of `convSame` as a function -/
+def C10.cterm (k h : List K) (c i m : Nat) : K :=
+  if m ≤ i + c then
+    match k[m]?, h[i + c - m]? with
+    | some kv, some hv => kv * hv
+    | _, _ => 0
+  else 0
+
+theorem C10.convSame_eq (k h : List K) :
+    convSame k h = (List.range h.length).map (fun i =>
+      ∑ m ∈ Finset.range k.length, C10.cterm k h ((k.length - 1) / 2) i m) := by
+  unfold convSame
+  apply List.map_congr_left
+  intro i _
+  rw [sumSeq_eq_sum, C10.sum_range_map]
+  rfl
+
+end
+
+section
+variable {K : Type} [Field K] [LinearOrder K] [IsStrictOrderedRing K]
+
+/-- `cterm` with the list look-ups resolved (for kernel indices inside the kernel) -/
+theorem C10.cterm_eq (k h : List K) (c i m : Nat) (hm : m < k.length) :
+    C10.cterm k h c i m =
+      if m ≤ i + c ∧ i + c - m < h.length then k.getD m 0 * h.getD (i + c - m) 0 else 0 := by
+  unfold C10.cterm
+  by_cases h1 : m ≤ i + c
+  · by_cases h2 : i + c - m < h.length
+    · simp [h1, h2, hm, List.getD_eq_getElem?_getD, List.getElem?_eq_getElem]
+    · have : h[i + c - m]? = none := List.getElem?_eq_none (not_lt.mp h2)
+      simp [h1, h2, this, hm]
+  · simp [h1]
+
+/-- the normaliser `convolve(ones, k)` at bin `i` -/
+def C10.Nf (k : List K) (n i : Nat) : K :=
+  ∑ m ∈ Finset.range k.length, C10.cterm k (List.replicate n 1) ((k.length - 1) / 2) i m
+
+theorem C10.smooth_eq (k p : List K) :
+    smooth k p = (List.range p.length).map (fun i =>
+      (∑ m ∈ Finset.range k.length, C10.cterm k p ((k.length - 1) / 2) i m) / C10.Nf k p.length i) := by
+  unfold smooth
+  have hones : p.map (fun _ => (1 : K)) = List.replicate p.length 1 := by simp
+  rw [hones, C10.convSame_eq k p, C10.convSame_eq k (List.replicate p.length 1)]
+  simp only [List.length_replicate, List.zipWith_map, List.zipWith_self]
+  rfl
+
+theorem C10.convSame_ones_getElem? (k : List K) (n i : Nat) (hi : i < n) :
+    (convSame k (List.replicate n (1 : K)))[i]? = some (C10.Nf k n i) := by
+  rw [C10.convSame_eq]
+  simp [hi, C10.Nf]
+
+theorem C10.colSum_eq (k : List K) (n j : Nat) :
+    colSum k n j = ∑ i ∈ Finset.range n, ∑ m ∈ Finset.range k.length,
+      if m ≤ i + (k.length - 1) / 2 ∧ i + (k.length - 1) / 2 - m = j then k.getD m 0 / C10.Nf k n i else 0 := by
+  unfold colSum
+  simp only
+  rw [sumSeq_eq_sum, C10.sum_range_map]
+  apply Finset.sum_congr rfl
+  intro i hi
+  rw [sumSeq_eq_sum, C10.sum_range_map]
+  apply Finset.sum_congr rfl
+  intro m hm
+  have hi' := Finset.mem_range.mp hi
+  have hm' := Finset.mem_range.mp hm
+  rw [C10.convSame_ones_getElem? k n i hi']
+  split_ifs
+  · simp [hm', List.getD_eq_getElem?_getD, List.getElem?_eq_getElem]
+  · rfl
+
+/-- **the smoothed band content is a re-weighting of the un-smoothed one**:
+`Σ_i smooth(p)_i = Σ_j p_j · colSum j` -/
+theorem C10.smooth_sum_eq (k p : List K) :
+    (smooth k p).sum = ∑ j ∈ Finset.range p.length, p.getD j 0 * colSum k p.length j := by
+  rw [C10.smooth_eq, C10.sum_range_map]
+  set c := (k.length - 1) / 2 with hc
+  set n := p.length with hn
+  have hL : ∀ i ∈ Finset.range n, (∑ m ∈ Finset.range k.length, C10.cterm k p c i m) / C10.Nf k n i =
+      ∑ j ∈ Finset.range n, ∑ m ∈ Finset.range k.length,
+        p.getD j 0 * (if m ≤ i + c ∧ i + c - m = j then k.getD m 0 / C10.Nf k n i else 0) := by
+    intro i _
+    rw [Finset.sum_div, Finset.sum_comm]
+    apply Finset.sum_congr rfl
+    intro m hm
+    rw [C10.cterm_eq k p c i m (Finset.mem_range.mp hm)]
+    by_cases h1 : m ≤ i + c
+    · by_cases h2 : i + c - m < n
+      · rw [if_pos ⟨h1, h2⟩]
+        rw [Finset.sum_eq_single (i + c - m)]
+        · simp [h1]; ring
+        · intro j _ hj; simp [h1, Ne.symm hj]
+        · intro hnot; exact absurd (Finset.mem_range.mpr h2) hnot
+      · rw [if_neg (fun h => h2 h.2), zero_div]
+        symm
+        apply Finset.sum_eq_zero
+        intro j hj
+        have : i + c - m ≠ j := fun h => h2 (h ▸ Finset.mem_range.mp hj)
+        simp [this]
+    · rw [if_neg (fun h => h1 h.1), zero_div]
+      symm
+      apply Finset.sum_eq_zero
+      intro j _
+      simp [h1]
+  rw [Finset.sum_congr rfl hL, Finset.sum_comm]
+  apply Finset.sum_congr rfl
+  intro j _
+  rw [C10.colSum_eq, Finset.mul_sum]
+  apply Finset.sum_congr rfl
+  intro i _
+  rw [Finset.mul_sum]
+
+end
+
+section
+variable {K : Type} [Field K] [LinearOrder K] [IsStrictOrderedRing K]
+
+theorem C10.sum_eq_range_getD (p : List K) : p.sum = ∑ j ∈ Finset.range p.length, p.getD j 0 := by
+  rw [← C10.sum_range_map]
+  congr 1
+  apply List.ext_getElem
+  · simp
+  · intro i h1 h2
+    simp [List.getD_eq_getElem?_getD, List.getElem?_eq_getElem h1]
+end
